@@ -201,10 +201,16 @@ impl<D: DictionaryAccess> DictBuilder<D> {
     /// Read the connection matrix from either a file or an in-memory buffer
     pub fn read_conn<'a, T: AsDataSource<'a> + 'a>(&mut self, data: T) -> SudachiResult<()> {
         let report = ReportBuilder::new(data.name()).read();
-        match data.convert() {
+        let result = match data.convert() {
             DataSource::File(p) => self.conn.read_file(p),
             DataSource::Data(d) => self.conn.read(d),
-        }?;
+        };
+        if let Err(e) = result {
+            // do not keep a partially read matrix (nor the size limits of an earlier one)
+            self.conn = conn::ConnBuffer::new();
+            self.lexicon.set_max_conn_sizes(0, 0);
+            return Err(e);
+        }
         self.lexicon
             .set_max_conn_sizes(self.conn.left(), self.conn.right());
         self.reporter.collect(
